@@ -20,7 +20,7 @@ EXTRACT = os.path.join(COQ, "extract")
 EVIDENCE = os.path.join(VERIF, "evidence")
 REPLAYS = os.path.join(VERIF, "replays")
 KNOWN = os.path.join(VERIF, "known_findings.txt")
-DRIVER_GROUPS = ["sp", "models", "cache", "mix"]
+DRIVER_GROUPS = ["sp", "models", "cache", "mix", "tr"]
 GROUP_PRELUDES = {"sp": ["prelude_base.ml", "prelude_z.ml", "prelude_num.ml"], "models": ["prelude_base.ml", "prelude_z.ml"],
                   "cache": ["prelude_base.ml"], "mix": ["prelude_base.ml", "prelude_z.ml", "prelude_num.ml"],
                   "tr": ["prelude_base.ml", "prelude_z.ml", "prelude_num.ml"]}
